@@ -64,7 +64,7 @@ def job_dict(job):
 
 
 def build_and_run(ctx, cases, nshards=None, profile='dbg', features=(), per_job_timeout=180, opt_level=0,
-                  run_env=None, wrapper=None, overlap=None):
+                  run_env=None, wrapper=None, overlap=None, sanitizer=None):
     """Builds all variants of all cases and runs all their jobs. Fills job.result (core.JobResult or None)
     and case.build_failed. `overlap` is a callable executed while cargo builds (e.g. reference evaluation).
     Returns dict with build / run statistics."""
@@ -90,7 +90,7 @@ def build_and_run(ctx, cases, nshards=None, profile='dbg', features=(), per_job_
     build_res = {}
 
     def do_build():
-        build_res['r'] = core.build_workspace(wdir, profile)
+        build_res['r'] = core.build_workspace(wdir, profile, sanitizer=sanitizer)
     th = threading.Thread(target=do_build)
     th.start()
     overlap_result = overlap() if overlap else None
@@ -132,7 +132,7 @@ def build_and_run(ctx, cases, nshards=None, profile='dbg', features=(), per_job_
                 f.write('#![allow(warnings)]\n' + '\n'.join(mods) + '\nfn main() {\n   vmon::main_with(&[\n' + '\n'.join(table) + '\n   ]);\n}\n')
         if not progress:
             break
-        bins, out = core.build_workspace(wdir, profile)
+        bins, out = core.build_workspace(wdir, profile, sanitizer=sanitizer)
     stats['build_s'] = round(time.time() - t0, 1)
     stats['build_output_tail'] = out[-1500:] if any(b is None for b in bins.values()) else ''
     for m, b in bins.items():
